@@ -37,7 +37,7 @@ from ref.objsnap import snap_object, diff
 PROPERTY = "C14"
 LEVEL = "model_checking"
 TASKS_PER_CHILD = 64
-JOB_TIMEOUT = {"quick": 300, "thorough": 1500}
+JOB_TIMEOUT = {"quick": 300, "thorough": 1700}
 
 QUICK_LENS = [0, 1, 2, 29, 30, 31, 32, 59, 60, 61, 89, 90, 91, 121]
 THOROUGH_LENS = list(range(0, 131))
@@ -45,15 +45,18 @@ THOROUGH_LENS = list(range(0, 131))
 BOUNDS = {
     "quick": {"numeric fields": "|v| < 16**16 (= 2**64), both signs, for every field rendered with hex(); "
                                 "0 <= v < 2**64 resp. |v| < 2**64 for the fields stored as JSON integers",
-              "field combinations": "per shape 2 diagonals of the (sign, digit-count) class product, one free field each; "
-                                    "within its class every field takes all values jointly with the others",
+              "field combinations": "per shape 1-2 diagonals of the (sign, digit-count) class product (32 classes per field: a symbolic "
+                                    "class input c puts field i into class (c + k_i) mod 32); within its class every field takes all "
+                                    "values jointly with the others",
               "data bytes": "all byte values; section lengths " + str(QUICK_LENS),
               "shapes": "0-3 sections, 0-5 symbols (global/local, defined/undefined/absolute), 0-3 relocations, 0-2 images, "
                         "entry set/unset, debug info none/rich, archives of 0-3 objects, 5 architectures"},
     "thorough": {"numeric fields": "|v| < 16**32 (= 2**128), both signs",
-                 "field combinations": "per shape 6 diagonals + for related field pairs both fields free (full class product of the pair)",
+                 "field combinations": "per shape 2-4 diagonals (64 classes per field) + for four related field pairs (section address/alignment, "
+                                       "symbol value/relocation offset, relocation offset/addend, relocation offset/image address) both "
+                                       "fields free (full 16x16 class product of the pair, |v| < 2**32)",
                  "data bytes": "all byte values; every section length 0..130",
-                 "shapes": "as quick, plus generated shape combinations"},
+                 "shapes": "as quick, plus 16 generated shape combinations (seeded)"},
 }
 OUTSIDE = ["names, relocation-type strings, file names: concrete samples only (a sample list with quotes, backslashes, "
            "non-ASCII, control characters, empty and long names goes through the real json module once per path)",
@@ -71,7 +74,7 @@ ASSUMPTIONS = [
     "field inventory of an object file taken from the property text (ref/objsnap.py); SourceLocation.source (a lazily loaded "
     "copy of the source text) is a cache, not debug information",
 ]
-SHIMS_USED = ["isinstance", "int", "bytes", "range", "hex", "bool"]
+SHIMS_USED = ["isinstance", "int", "bytes", "range", "hex", "bool", "struct"]
 
 _real_hex = hex
 _real_int = int
@@ -286,16 +289,6 @@ EXTRA = {"hex": hex_c14, "int": int_c14, "binascii": binascii_c14, "json": json_
 
 # ---------------------------------------------------------------------------------------------
 # numeric classes
-def _cls(v, D):
-    """(sign, hex digit count) class of v, 0 .. 2D-1; works on proxies and ints, no fork"""
-    neg = v < 0
-    a = ite(neg, -v, v)
-    nd1 = 0
-    for k in range(1, D):
-        nd1 = nd1 + ite(a >= (1 << (4 * k)), 1, 0)
-    return nd1 + D * ite(neg, 1, 0)
-
-
 def _cls_interval(c, D):
     neg, nd = divmod(c, D)
     nd += 1
@@ -382,7 +375,7 @@ SHAPES = {
     "symid": dict(arch="arm", sections=[["code", 2]],
                   symbols=[_sym("a", "global", "code"), _sym("b", "local", None, False)], relocs=[["absaddr32", "code"]],
                   entry=True, symids=True),
-    # recorded finding: recursive type whose pointer is registered before the struct
+    # recursive type whose pointer is registered before the struct (KeyError on load before fix c43ac89)
     "debug-ptrfirst": dict(arch="arm", sections=[["code", 1]], debug="ptrfirst"),
 }
 ARCHIVES = {
@@ -604,17 +597,18 @@ class ObjectHarness(_Base):
 class ArchiveHarness(_Base):
     """several objects: Archive.save -> text -> Archive.load"""
 
-    def __init__(self, archive, D=16, ks=(), free=()):
+    def __init__(self, archive, D=16, ks=(), free=(), cls_range=None):
         self.archive = archive
+        self.cls_range = cls_range
         self.shapes = [SHAPES[s] for s in ARCHIVES[archive]]
         self.ks = list(ks)
         self.free = list(free)
         self._setup(D)
         self.name = f"archive.roundtrip[{archive};D={D};k={_kname(self.ks)}]"
-        self.params = dict(archive=archive, D=D, ks=self.ks, free=self.free)
+        self.params = dict(archive=archive, D=D, ks=self.ks, free=self.free, cls_range=cls_range)
 
     def inputs(self, mk):
-        fm = FieldMaker(mk, self.D, self.ks, self.free)
+        fm = FieldMaker(mk, self.D, self.ks, self.free, self.cls_range)
         return {f"o{i}": declare(s, fm, f"o{i}.") for i, s in enumerate(self.shapes)}
 
     def run(self, v):
@@ -849,27 +843,42 @@ def jobs(tier, seed):
         D, ndiag, lens = 16, 2, QUICK_LENS
         shapes = dict(SHAPES)
     else:
-        D, ndiag, lens = 32, 6, THOROUGH_LENS
+        D, ndiag, lens = 32, 4, THOROUGH_LENS
         shapes = dict(SHAPES)
-        shapes.update(gen_shapes(seed, 24))
+        shapes.update(gen_shapes(seed, 16))
     js.append(("mk_num", dict(D=D)))
     for n in lens:
         js.append(("mk_data", dict(n=n, mutable=bool(n % 2))))
     for sid, sh in shapes.items():
         nf = _nhex(sh)
-        for ks in _diagonals(rnd, nf, D, ndiag if nf > 1 else 1):
-            js.append(("mk_obj", dict(shape=sid, D=D, ks=ks, free=[], seed=seed)))
+        nd = ndiag if nf > 1 else 1
+        if tier == "quick" and sid not in ("typical", "images"):
+            nd = 1
+        if tier == "thorough" and sid.startswith("gen"):
+            nd = min(nd, 2)
+        diags = _diagonals(rnd, nf, D, max(nd, 2))
+        for ks in (diags if nd > 1 else diags[1:] if nf > 1 else diags[:1]):
+            kw = dict(shape=sid, D=D, ks=ks, free=[], seed=seed)
+            if nf == 0:
+                kw["cls_range"] = [0, 0]            # no hex()-rendered field: the class input is moot
+            elif sh.get("symids") and tier == "quick":
+                c = rnd.randrange(2 * D)            # symbol ids are enumerated (x12 paths): one class per diagonal
+                kw["cls_range"] = [c, c]
+            js.append(("mk_obj", kw))
     for aid in ARCHIVES:
+        if aid == "ar0":
+            continue
         js.append(("mk_ar", dict(archive=aid, D=D, ks=[0], free=[])))
+    js.append(("mk_ar", dict(archive="ar0", D=D, ks=[0], free=[], cls_range=[0, 0])))
     js.append(("mk_ar", dict(archive="ar3", D=D, ks=[0] + [rnd.randrange(2 * D) for _ in range(20)], free=[])))
     for mode in ("objects", "library"):
         for variant in ((0, 1) if tier == "quick" else (0, 1, 2)):
             js.append(("mk_link", dict(mode=mode, variant=variant, partial=False)))
     js.append(("mk_link", dict(mode="objects", variant=2, partial=True)))
     if tier == "thorough":
-        # related pairs, both free: full (sign, digit-count) product of the pair (D=16 keeps it at 1024 paths)
-        for sid, pair in (("sec1", [0, 1]), ("symid", [0, 2]), ("typical", [5, 6])):
-            js.append(("mk_obj", dict(shape=sid, D=16, ks=[0, 3, 17, 8, 30, 21, 12], free=pair, seed=seed, cls_range=[5, 5])))
+        # related pairs, both free: full (sign, digit-count) product of the pair (D=8: 16x16 = 256 paths each)
+        for sid, pair in (("sec1", [0, 1]), ("typical", [4, 7]), ("typical", [7, 8]), ("images", [8, 10])):
+            js.append(("mk_obj", dict(shape=sid, D=8, ks=[0, 3, 9, 8, 14, 5, 12], free=pair, seed=seed, cls_range=[5, 5])))
     only = os.environ.get("VERIF_ONLY")
     if only:
         js = [j for j in js if only in repr(j)]
